@@ -41,10 +41,12 @@ def part_a(ctx):
     cap = ctx.pick(25, 120)
     src_of, lay_of = {}, {}
     impl_terms, ref_terms, ref_meta, trees = [], [], [], []
+    impl_meta = []
     bad = []
     for i in range(nprog):
         scope = ctx.rng.choice(['func'] * 8 + ['module'] * 2)
-        g = pygen.Gen(ctx.rng, allow_return=(scope == 'func'), exits=True, max_stmts=ctx.rng.choice([8, 12]))
+        g = pygen.Gen(ctx.rng, allow_return=(scope == 'func'), exits=True, max_stmts=ctx.rng.choice([8, 12]),
+                      names=ctx.rng.choice([None, None, pygen.POOL[:2], pygen.POOL[:3]]))   # few names: more kills
         body = g.program()
         trees.append((body, scope))
         try:
@@ -57,6 +59,7 @@ def part_a(ctx):
             continue
         if scope == 'func':
             impl_terms.append(rc.impl_case_term(body, obs))
+            impl_meta.append((i, obs))
         runs, ex = rc.enumerate_decisions(rc.Oracle(pygen.render_instrumented(body, scope), scope, cont=True), cap)
         for eff, log, err in runs:
             if err:
@@ -82,7 +85,7 @@ def part_a(ctx):
         seen.add((i, what))
         body, scope = trees[i]
         ctx.violation(what, {'kind': 'direct-A', 'scope': scope, 'tree': body, 'source': src_of.get(id(body)) or pygen.render_plain(body, scope)[0], 'layout_seed': lay_of.get(id(body)), 'decisions': eff})
-    bad_i = ctx.run_cases(rc.IMPORTS, rc.CHECK_PRELUDE, 'check_impl', impl_terms, shard=150)
+    bad_i = ctx.run_cases(rc.IMPORTS, rc.CHECK_PRELUDE, 'check_implx', impl_terms, shard=150)
     bad_r = ctx.run_cases(rc.IMPORTS, rc.CHECK_PRELUDE, 'check_refX', ref_terms, shard=400)
     bad_v = ctx.run_cases(rc.IMPORTS, rc.CHECK_PRELUDE, 'check_visible_instance', ref_terms, shard=400)
     cov['A_programs'] = nprog
@@ -91,8 +94,12 @@ def part_a(ctx):
     cov['A_ref_disagreements'] = len(bad_r)
     cov['A_theorem_instance_failures'] = len(bad_v)
     if bad_i and not bad:
-        ctx.violation('(I) correspondence Model/Reach.v vs supp no longer checks on %d programs with exits' % len(bad_i),
-                      {'kind': 'correspondence-impl', 'theorem': 'C01_visible_any_exit (model tie)'}, found_input=False)
+        ctx.violation('(I) correspondence Model/ReachX.v vs supp no longer checks on %d programs with exits' % len(bad_i),
+                      {'kind': 'correspondence-impl', 'theorem': 'C01_visible_any_exit (model tie)',
+                       'tree': trees[impl_meta[bad_i[0]][0]][0], 'scope': 'func',
+                       'source': src_of.get(id(trees[impl_meta[bad_i[0]][0]][0])),
+                       'supp_alternatives': {str(k): v for k, v in impl_meta[bad_i[0]][1]['seen'].items()},
+                       'supp_unused': sorted(impl_meta[bad_i[0]][1]['unused'])}, found_input=False)
     if bad_r:
         i, eff = ref_meta[bad_r[0]]
         ctx.violation('(R) correspondence Model/SemX.v vs CPython no longer checks on %d executions' % len(bad_r),
